@@ -38,7 +38,8 @@ class C06World(TableWorld):
         self.variant = variant
         n = {"commit_old": 2, "rollback_old": 2, "append_fresh": 2, "commit_old+committer": 3,
              "commit_old+fresh": 3, "two_old": 3, "append_fresh_2gc": 2, "append_fresh_2collectors": 3,
-             "commit_old+envcommit": 3, "append_fresh+envgc": 3}[variant]
+             "commit_old+envcommit": 3, "append_fresh+envgc": 3, "sibling_rollback_then_commit_old": 2,
+             "sibling_commit_then_commit_old": 2}[variant]
         # the second collector of the two-collector variant is the run "hours later": it starts while the writer is
         # stalled or after the writer has finished (a collector that starts earlier is G)
         self.initially_frozen = ("H",) if variant == "append_fresh_2collectors" else ()
@@ -63,12 +64,16 @@ class C06World(TableWorld):
         self.txs, self.tx_files = [], []
         self.gc_open, self.gc_runs = 0, []
         n_old = {"commit_old": 1, "rollback_old": 1, "commit_old+committer": 1, "commit_old+fresh": 1, "two_old": 2,
-                 "commit_old+envcommit": 1}.get(self.variant, 0)
+                 "commit_old+envcommit": 1, "sibling_rollback_then_commit_old": 1,
+                 "sibling_commit_then_commit_old": 1}.get(self.variant, 0)
         for k in range(n_old):
             tx = self.handle(1 + k).new_transaction().begin()
             tx.append_data([row(50 + k)])
             self.txs.append(tx)
-            for f in list(tx._written_files) + list(tx._inflight_markers):
+            # the transaction's data file and every marker on storage (read from storage, not from the
+            # transaction object, whose private attributes are the library's business)
+            markers = [p for p in self.view.list() if p.startswith("metadata/inflight/")]
+            for f in list(tx._written_files) + markers:
                 self._age(f)
             self.tx_files.append(tx._written_files[0])
         self.env_commits = 0
@@ -99,6 +104,22 @@ class C06World(TableWorld):
         v = self.variant
         if v in ("commit_old", "commit_old+committer", "commit_old+fresh", "two_old", "commit_old+envcommit"):
             out.append(("T", self.txs[0].commit))
+        if v.startswith("sibling_"):
+            # a second transaction opened from the SAME table handle finishes (rolls back / commits) while the first,
+            # older one is still open; then the first commits
+            h1 = self.handle(1)
+            tx0 = self.txs[0]
+
+            def body():
+                tx2 = h1.new_transaction().begin()
+                tx2.append_data([row(80)])
+                if v.startswith("sibling_rollback"):
+                    tx2.rollback()
+                else:
+                    tx2.commit()
+                return tx0.commit()
+
+            out.append(("T", body))
         if v == "rollback_old":
             out.append(("T", self.txs[0].rollback))
         if v == "two_old":
@@ -191,6 +212,8 @@ class C06World(TableWorld):
         else:
             cur = set(st.current_rows())
             want = {"T": [50], "U": [51], "C": [70]}
+            if self.variant == "sibling_commit_then_commit_old":
+                want["T"] = [50, 80]
             if self.env_commits and canon_row(row(70)) not in cur:
                 problems.append("the environment's acknowledged commit is missing from the current snapshot")
             if self.variant in ("append_fresh", "append_fresh_2gc", "append_fresh_2collectors", "append_fresh+envgc"):
@@ -273,6 +296,10 @@ def configs(tier: str, seed: int) -> List[Dict[str, Any]]:
             add(b, "commit_old+envcommit")
         # the transaction loses its first commit attempt against another writer (atomic environment commit) and retries
         add(b, "commit_old+envcommit", bound=1)
+        # two transactions opened from one table handle: the younger one finishes first
+        add(b, "sibling_rollback_then_commit_old")
+        if tier != "quick" or b == "local":
+            add(b, "sibling_commit_then_commit_old")
         # a slow collection run (10 min << grace) with a whole append landing in the middle of it
         add(b, "append_fresh", bound=1, max_lags=1)
         # a whole collection run of another process lands atomically at any point of the append; the writer may stall
